@@ -127,8 +127,7 @@ def loop_exits_only_on_exhaustion(fn, head):
                 ok = False
                 continue
             # the switch must be on discriminant(next-result) and s must be the arm for 0 (None)
-            arms = {int(v): t for v, t in blk.term.j["arms"]}
-            if arms.get(0) != s:
+            if blk.term.none_some_targets()[0] != s:
                 ok = False
                 continue
             d = blk.term.discr
@@ -231,7 +230,19 @@ def double_hashing_rules(ctx, rule="R08-double-hashing"):
     selfp = ("param", 1, "self")
     itf = ctx.anchor("hash_utils::HashIterBuilder::iter_for")
     nxt = ctx.anchor("<hash_utils::HashIter as std::iter::Iterator>::next")
-    sf = ctx.anchor("hash_utils::HashIterBuilder::setup_f")
+    sf = prog.fn("hash_utils::HashIterBuilder::setup_f")
+    f_term = None
+    if sf is not None:
+        ctx.analysed_fns.add(sf.key)
+        f_term, f_where, m_of, k_of = TermBuilder(sf, prog).return_term(), sf, ("param", 1), ("param", 2)
+    else:
+        # the table may be built inside the constructor itself: take the `f` field of what HashIterBuilder::new returns
+        nw = ctx.anchor("hash_utils::HashIterBuilder::new")
+        if nw is not None:
+            rn = TermBuilder(nw, prog).return_term()
+            dn = dict(rn[3]) if rn[0] == "adt" else {}
+            f_term, f_where = dn.get("f"), nw
+            m_of, k_of = (dn.get("m") or ("x",))[:2], (dn.get("k") or ("x",))[:2]
     if itf is not None:
         r = TermBuilder(itf, prog).return_term()
         d = dict(r[3]) if r[0] == "adt" else {}
@@ -255,14 +266,19 @@ def double_hashing_rules(ctx, rule="R08-double-hashing"):
                                ("call", "hash_utils::HashIterBuilder::f", (("field", selfp, "builder"), i_f))), bm)
         ctx.check(got in (want, alt_want), rule, nxt.key, nxt, "item i = (h1 + (i mod m)*h2 + f(i)) mod m",
                   "next() yields %s, documented: (h1 + i*h2 + f(i)) mod m" % (fmt(got) if got else fmt(r)[:200]))
-    if sf is not None:
-        r = TermBuilder(sf, prog).return_term()
+    if f_term is None:
+        ctx.fail("anchor-missing", "hash_utils::HashIterBuilder:f-table", None, "neither setup_f nor a constructor that builds the `f` table was found")
+    else:
+        r = f_term
+        sf = f_where
         okf = False
         if r[0] == "call" and r[1].endswith("collect") and r[2][0][0] == "map":
             rng = r[2][0][1]
             e = elem_of(r[2][0])
-            okf = rng[0] == "adt" and rng[1] == "std::ops::Range" and dict(rng[3]).get("start") == const(0) and dict(rng[3]).get("end", ("x",))[:2] == ("param", 2) \
-                and e[0] == "op" and e[1] == "Rem" and e[2][1][:2] == ("param", 1)
+            mod = e[2][1] if (e[0] == "op" and e[1] == "Rem") else None
+            mod = mod[2] if (mod is not None and mod[0] == "cast") else mod
+            okf = rng[0] == "adt" and rng[1] == "std::ops::Range" and dict(rng[3]).get("start") == const(0) and dict(rng[3]).get("end", ("x",))[:2] == k_of \
+                and mod is not None and mod[:2] == m_of
         ctx.check(okf, rule, sf.key, sf, "f has k entries, each reduced modulo m", "setup_f builds %s" % fmt(r)[:200])
 
 
@@ -356,6 +372,16 @@ def cellwise_merge(ctx, m, field):
     cells = {repr(("elem", ("field", selfp, field))), repr(("elem", ("field", otherp, field)))}
     both = {repr(("field", selfp, field)), repr(("field", otherp, field))}
     ws = [w for w in all_writes(ctx, m) if self_field(w) == field and w["how"] == "store" and not w.get("via")]
+    if not ws:
+        # `self.f |= &other.f` / `self.f.union_with(&other.f)`: the in-place spelling of the whole-field OR
+        cs = [w for w in all_writes(ctx, m) if self_field(w) == field and w["how"] == "call" and w.get("name") in ("bitor_assign", "union_with") and not w.get("via")
+              and len(w.get("args", [])) == 2 and len(w["path"]) == 1]
+        if len(cs) == 1:
+            a = [erase_param_names(x) for x in cs[0]["args"]]
+            ok = sorted(map(repr, a)) == sorted(both)
+            pd = m.postdominators()
+            ok = ok and (cs[0]["bb"] in pd.get(0, set()) or cs[0]["bb"] == 0 or all(cs[0]["bb"] in pd.get(e, set()) | {e} for e in [0]))
+            return {"form": "in-place-or" if ok else None, "elem": ("op", "BitOr", tuple(a)), "why": "%s |= %s" % (fmt(a[0]), fmt(a[1]))}
     if len(ws) != 1:
         return {"form": None, "why": "%d stores to %s" % (len(ws), field)}
     w = ws[0]
@@ -414,11 +440,11 @@ def iterations_on_path(fn, head, p):
     for b in body:
         blk = fn.blocks[b]
         if blk.term.k == "switch" and blk.stmts and blk.stmts[-1].k == "assign" and blk.stmts[-1].rv.k == "discr":
-            arms = {int(v): tg for v, tg in blk.term.j["arms"]}
-            if arms.get(0) is not None and arms[0] not in body and 1 in arms:
+            n_t, s_t = blk.term.none_some_targets()
+            if n_t is not None and n_t not in body and s_t is not None:
                 src = blk.stmts[-1].rv.place.local
                 if any(kind == "call" and obj.callee_name() == "next" for (b2, i2, kind, obj) in fn.defs().get(src, [])):
-                    some_blocks.add(arms[1])
+                    some_blocks.add(s_t)
     return sum(1 for b in p.blocks if b in some_blocks)
 
 
@@ -433,3 +459,107 @@ def fuse_loop(fn, tb):
     # nested loops: keep the innermost
     hs = [h for h in hs if not any(h2 != h and h2 in fn.natural_loop(h) for h2 in hs)]
     return hs[0] if len(hs) == 1 else None
+
+
+def path_return_term(pe, p):
+    """the value returned on path p of pe.fn: the last definition of _0 along the path's blocks"""
+    fn, tb = pe.fn, pe.tb
+    for b in reversed(p.blocks):
+        blk = fn.blocks[b]
+        for si in range(len(blk.stmts) - 1, -1, -1):
+            st = blk.stmts[si]
+            if st.k == "assign" and st.place.is_local() and st.place.local == 0:
+                return tb.rvalue(st.rv, b, si)
+        if blk.term.k == "call" and blk.term.dest is not None and blk.term.dest.is_local() and blk.term.dest.local == 0:
+            return tb.call_term(blk.term, b)
+    return None
+
+
+def pure_call_interval(ctx):
+    """hook for intervals.ieval: interval of a call to a small crate-local pure function (`fn at_least_one(v) -> usize { match v { 0 => 1,
+    o => o } }`), as the hull over its returning paths of the returned term's interval under that path's branch facts"""
+    from ..paths import PathEnumerator
+    from ..intervals import ieval, float_facts_to_env, Iv, hull
+
+    def hook(key, args, env):
+        f = ctx.prog.fn(key)
+        if f is None or f.loop_heads() or len(f.blocks) > 24 or f.arg_count != len(args) or env.get("__depth__", 0) > 2:
+            return None
+        ctx.analysed_fns.add(key)
+        pe = PathEnumerator(f, ctx.prog, ctx.summ, subst={i + 1: a for i, a in enumerate(args)})
+        outs = []
+        for p in pe.paths():
+            if p.exit_kind != "return":
+                continue
+            rt = path_return_term(pe, p)
+            if rt is None:
+                return None
+            facts = pe.path_facts(p)
+            env2 = float_facts_to_env(facts, {k: v for k, v in env.items() if not k.startswith("__")})
+            env2["__call__"] = hook
+            env2["__depth__"] = env.get("__depth__", 0) + 1
+            # integer facts on argument terms: x == 0 / x != 0 on an unsigned x
+            for c, tr in facts:
+                if c[0] == "op" and c[1] in ("Eq", "Ne") and len(c[2]) == 2 and ("const", 0) in c[2]:
+                    x = [y for y in c[2] if y != ("const", 0)]
+                    if len(x) == 1:
+                        iv = ieval(x[0], env2)
+                        if (c[1] == "Eq") == bool(tr):
+                            env2[repr(x[0])] = Iv.point(0.0)
+                        else:
+                            env2[repr(x[0])] = Iv(max(iv.lo, 1.0), iv.hi, True, iv.hc)
+            outs.append(ieval(rt, env2))
+        return hull(outs) if outs else None
+    return hook
+
+
+def bool_loop_form(ctx, fn):
+    """A bool function written as a search loop: `for x in S { if !p(x) { return false } } true` is all(S, p), `for x in S { if p(x)
+    { return true } } false` is any(S, p). Returns ("all"|"any", stream term, predicate over elem(stream)) or None. The loop must
+    be the only loop, run over one stream, leave normally only on exhaustion and return the opposite constant right after it."""
+    from ..terms import TermBuilder, simplify
+    from ..paths import PathEnumerator
+    if fn.local_ty(0) != "bool" or len(fn.loop_heads()) != 1:
+        return None
+    h = fn.loop_heads()[0]
+    tb = TermBuilder(fn, ctx.prog)
+    body = fn.natural_loop(h)
+    # the stream: the loop's iterator (early returns are allowed here, so not TermBuilder._for_loop_stream)
+    st = None
+    for b in body:
+        t = fn.blocks[b].term
+        if t.k == "call" and t.callee_decl() == "std::iter::Iterator::next" and len(t.args) == 1:
+            a = tb.operand(t.args[0], b, len(fn.blocks[b].stmts))
+            if a[0] == "loopvar" and a[2] == h:
+                st = tb.loop_init(a[1], a[2])
+    if st is None:
+        return None
+    pe = PathEnumerator(fn, ctx.prog, ctx.summ, max_back=1)
+    early, final = set(), set()
+    preds = []
+    for p in pe.paths():
+        if p.exit_kind != "return" or p.ret not in ("true", "false"):
+            return None
+        its = iterations_on_path(fn, h, p)
+        # did the path leave through the exhaustion exit?
+        exhausted = False
+        for e in p.events:
+            if e["kind"] == "branch" and e["bb"] in body and e.get("cond") is not None and e["cond"][0] == "call" and e["cond"][1] == "discriminant" and e["value"] == 0:
+                exhausted = True
+        if exhausted:
+            final.add(p.ret)
+        else:
+            early.add(p.ret)
+            fs = [(c, tr) for c, tr in pe.path_facts(p) if not (c[0] == "op" and c[1] == "Eq" and c[2] and any(x[0] == "call" and x[1] == "discriminant" for x in c[2]))
+                  and not (c[0] == "call" and c[1] == "discriminant")]
+            if its >= 1 and fs:
+                preds.append(fs[-1])      # the test that made this iteration return
+    if len(early) != 1 or len(final) != 1 or early == final or not preds:
+        return None
+    c0, tr0 = preds[0]
+    if any((c, tr) != (c0, tr0) for c, tr in preds):
+        return None
+    if early == {"false"}:
+        # returns false as soon as (c0 is tr0): all items satisfy the negation
+        return ("all", st, c0 if not tr0 else simplify(("op", "Not", (c0,))))
+    return ("any", st, c0 if tr0 else simplify(("op", "Not", (c0,))))
